@@ -486,14 +486,75 @@ def rwPred (e : Env) (p : Piece) : Pred → Option Toks
       let rs ← pick (e.fits (p ++ [3])) (rwTy e (p ++ [1]) r) (rwTy e (p ++ [2]) r)
       pure (ls ++ [tP '='] ++ rs)
 
-/-- Every binder parameter of the tree is a lifetime (with or without bounds): the only binders of
-stable Rust.  Such a parameter cannot fail to rewrite, so `rewrite_bound_params` never met its own
-ambiguity on these trees. -/
-def Params.lifetimesOnly : Params → Bool
+/-! ## Trees whose binders hold lifetimes only
+
+`for<'a, 'b: 'a>` is all stable Rust has.  A lifetime parameter cannot fail to rewrite (see `rwParams`), so on
+these trees `rewrite_bound_params` never met its own ambiguity. -/
+
+mutual
+def lbTy : Ty → Bool
+  | .path _ s => lbSegs s
+  | .qpath q _ tr rest => lbTy q && lbSegs tr && lbSegs rest
+  | .ref _ _ t => lbTy t
+  | .ptr _ t => lbTy t
+  | .never => true
+  | .infer => true
+  | .tup ts => lbTys ts
+  | .paren t => lbTy t
+  | .array t _ => lbTy t
+  | .slice t => lbTy t
+  | .implTrait bs => lbBounds bs
+  | .traitObj _ bs => lbBounds bs
+  | .bareFn b _ _ args _ ret => lbParams b && lbFnArgs args && lbOptTy ret
+  | .unsafeBinder b t => lbParams b && lbTy t
+  | .pat t _ _ _ => lbTy t
+def lbOptTy : OptTy → Bool
+  | .none => true
+  | .some t => lbTy t
+def lbTys : Tys → Bool
   | .nil => true
-  | .lifetime _ _ r => r.lifetimesOnly
+  | .cons t r => lbTy t && lbTys r
+def lbSegs : Segs → Bool
+  | .nil => true
+  | .plain _ r => lbSegs r
+  | .angle _ a r => lbGArgs a && lbSegs r
+  | .fn _ i o r => lbTys i && lbOptTy o && lbSegs r
+  | .elided _ r => lbSegs r
+def lbGArgs : GArgs → Bool
+  | .nil => true
+  | .lt _ r => lbGArgs r
+  | .ty t r => lbTy t && lbGArgs r
+  | .const _ _ r => lbGArgs r
+  | .assocEq _ g t r => lbGArgs g && lbTy t && lbGArgs r
+  | .assocBound _ g b r => lbGArgs g && lbBounds b && lbGArgs r
+def lbBounds : Bounds → Bool
+  | .nil => true
+  | .trait _ b _ _ _ _ path r => lbParams b && lbSegs path && lbBounds r
+  | .outlives _ r => lbBounds r
+  | .use _ r => lbBounds r
+/-- every parameter of the binder is a lifetime -/
+def lbParams : Params → Bool
+  | .nil => true
+  | .lifetime _ _ r => lbParams r
   | .type .. => false
   | .const .. => false
+def lbFnArgs : FnArgs → Bool
+  | .nil => true
+  | .cons _ t r => lbTy t && lbFnArgs r
+end
+
+def lbPred : Pred → Bool
+  | .bound b t bs => lbParams b && lbTy t && lbBounds bs
+  | .region .. => true
+  | .eq l r => lbTy l && lbTy r
+
+/-- The trailing `,` of a generic list laid out vertically (`<\n    A,\n>`): an optional trailing
+separator.  The judge removes it on both sides before C01's validator runs, because the validator takes
+angle brackets for operators and would count that `,` as a second element of an enclosing 1-tuple. -/
+def dropCommaGt : Toks → Toks
+  | [] => []
+  | [a] => [a]
+  | a :: b :: r => if a.isP ',' && b.isP '>' then dropCommaGt (b :: r) else a :: dropCommaGt (b :: r)
 
 /-- An oracle from a list of failing pieces. -/
 def failing (bad : List Piece) : Piece → Bool := fun p => !bad.contains p
